@@ -376,6 +376,9 @@ class SpecMixin:
         if name == 'zx':      # zero-extend a bit-vector to 64 bits
             a = self.sev(env, args[0])
             return z3.ZeroExt(64 - a.size(), a) if a.size() < 64 else a
+        if name == 'samestr':     # two string views denote the same bytes (same array, offset, length)
+            x, y = self.sev(env, args[0]), self.sev(env, args[1])
+            return z3.And(x.arr == y.arr, x.off == y.off, x.len == y.len)
         if name == 'deref':
             x = self.sev(env, args[0])
             if not isinstance(x, PtrV): raise Unsupported('deref of a non-pointer')
